@@ -34,7 +34,8 @@ def set_random_bcs(rng, mesh, cname, allow_periodic=True, kinds=None):
                 face.c[:] = np.array([gen.dy(rng, -2, 2, 4, 0.1) for _ in range(n)]).reshape(face.c.shape)
             elif kind == "neumann":
                 face.a[:] = 1.0; face.b[:] = 0.0
-                face.c[:] = np.array([gen.dy(rng, -2, 2, 4, 0.3) for _ in range(n)]).reshape(face.c.shape)
+                face.c[:] = np.array([gen.dy(rng, -2, 2, 4, 0.3 if kinds is None else 0.0) or 0.75 for _ in range(n)]).reshape(face.c.shape) if kinds else \
+                    np.array([gen.dy(rng, -2, 2, 4, 0.3) for _ in range(n)]).reshape(face.c.shape)
             elif kind == "robin":
                 sgn = 1.0 if s == 1 else -1.0     # outward normal: keeps a/h + b/2 away from 0
                 face.a[:] = sgn * np.array([rng.choice([0.25, 0.5, 1.0, 2.0]) for _ in range(n)]).reshape(shape)
@@ -80,15 +81,27 @@ def run_suite(suite, tier, seed):
     em = Emitter(suite)
     keys, samples, dist, skipped = [], [], {}, []
     ncase = 0
-    reps = (ncases(tier) + 3) if tier == "quick" else 40
+    reps = 16 if tier == "quick" else 60
+    SYSTEMATIC = ["robin", "neumann", "dirichlet"]
     for cname in gen.CLASSES:
         d = gen.DIM[cname]
         for k in range(reps):
-            fs = gen.mesh_case(rng, cname, nmax=nmax(tier), uniform=(k % 5 == 4), nmin=1)
+            if k < len(SYSTEMATIC):
+                # systematic: graded mesh with N = 3 on every axis (first and last cell sizes differ), every side of the same
+                # non-periodic kind with face-wise coefficients
+                fs = [gen.faces(rng, gen.AXKIND[cname][a], 3) for a in range(d)]
+                for f in fs:
+                    if abs((f[1] - f[0]) - (f[-1] - f[-2])) < 1e-12:
+                        f[-1] = f[-1] + (f[-1] - f[-2]) / 2
+            else:
+                fs = gen.mesh_case(rng, cname, nmax=nmax(tier), uniform=(k % 5 == 4), nmin=1)
             mesh = gen.build_mesh(pf, cname, fs)
             label = {"cls": cname, "faces": [list(map(float, f)) for f in fs]}
             try:
-                BC, desc, per = set_random_bcs(rng, mesh, cname)
+                if k < len(SYSTEMATIC):
+                    BC, desc, per = set_random_bcs(rng, mesh, cname, allow_periodic=False, kinds=[SYSTEMATIC[k]])
+                else:
+                    BC, desc, per = set_random_bcs(rng, mesh, cname)
                 label["bc"] = bc_label(BC, d); label["kinds"] = desc
                 mn = f"m{ncase}"
                 defs = coq_mesh(mn, cname, fs, mesh) + coq_bcs(f"b{ncase}", mn, BC, d)
